@@ -159,6 +159,10 @@ async def sd_body(trace, spec, who):
             await asyncio.sleep(0)
     except asyncio.CancelledError:
         trace.log('sd_cancel', who)
+        if spec.get('sswallow'):
+            # a handler that honours the cancellation by stopping at once, but
+            # returns normally instead of re-raising
+            return None
         raise
     trace.log('sd_return', who)
 
